@@ -165,10 +165,11 @@ Qed.
 (* a settled state is never in the middle of a cycle or an audit *)
 Lemma quiescent_loop c s :
   KeysInv s -> quiescent c s = true ->
-  loop s = LNotStarted \/ loop s = LIdle \/ (exists t, loop s = LSleeping t /\ now s <> t) \/ loop s = LExited.
+  loop s = LNotStarted \/ loop s = LIdle \/ (exists t, loop s = LSleeping t /\ now s <> t) \/ loop s = LExited
+  \/ (exists t, loop s = LBusy t /\ now s <> t).
 Proof.
   intro KI. unfold quiescent. intro Q. rewrite forallb_forall in Q.
-  assert (C : forall l, In l [ILoopResume; ILoopAuditConfirm; ICycleVisit; ICycleEnd] -> step_notime c s l = None).
+  assert (C : forall l, In l [ILoopResume; ILoopUnbusy; ILoopAuditConfirm; ICycleVisit; ICycleEnd] -> step_notime c s l = None).
   { intros l I. specialize (Q l). destruct (step_notime c s l); [|reflexivity].
     assert (X : In l (candidates c s)).
     { unfold candidates. apply in_or_app. right. apply in_or_app. right. apply in_or_app. left.
@@ -177,6 +178,9 @@ Proof.
   destruct (loop s) eqn:L; auto.
   - right. right. left. exists until. split; [reflexivity|].
     specialize (C ILoopResume ltac:(simpl; tauto)). simpl in C. unfold do_loop_resume in C. rewrite L in C.
+    destruct (until =? now s) eqn:E; [discriminate|]. apply Z.eqb_neq in E. congruence.
+  - right. right. right. right. exists until. split; [reflexivity|].
+    specialize (C ILoopUnbusy ltac:(simpl; tauto)). simpl in C. unfold do_loop_unbusy in C. rewrite L in C.
     destruct (until =? now s) eqn:E; [discriminate|]. apply Z.eqb_neq in E. congruence.
   - specialize (C ILoopAuditConfirm ltac:(simpl; tauto)). simpl in C. unfold do_audit_confirm in C.
     rewrite L in C. discriminate.
@@ -448,6 +452,62 @@ Proof.
   - unfold d1. destruct (tickers_on s); simpl; discriminate.
   - rewrite E1 in H0. apply Z.leb_le in H0. lia.
 Qed.
+
+(* ------------------------------------------------------------------ a listener that takes its time *)
+
+(* while the loop is inside such a listener it does nothing else: no batch, no capacity request, no audit;
+   time cannot pass the instant at which the listener returns, and at that instant the loop is idle again
+   with every pending tick, flush request and pause request still there *)
+Lemma busy_quiet c s l s' o x t :
+  loop s = LBusy t -> step c s l = Some (s', o) -> In x o ->
+  is_batch x = false /\ is_giveme x = false /\ is_audit x = false.
+Proof.
+  intros L H I.
+  destruct l; simpl in H; unfold_step H; unfold do_cycle_visit, loop_idle in *; rewrite ?L in H;
+    cases_in H; try some_inv H; simpl in I;
+    repeat (destruct I as [I|I]; [subst x; simpl; repeat split; reflexivity|]); try contradiction;
+    try discriminate.
+Qed.
+
+Lemma busy_time c s t t' s' o :
+  loop s = LBusy t -> step c s (TAdvance t') = Some (s', o) -> t' <= t /\ loop s' = LBusy t.
+Proof.
+  simpl. unfold do_advance. intros L H.
+  destruct ((now s <? t') && quiescent c s && match next_due s with None => true | Some d => t' <=? d end) eqn:E;
+    [|discriminate]. some_inv H. simpl. split; [|exact L]. bool_hyps.
+  unfold next_due in *. rewrite L in *.
+  set (d1 := zmin_opt (if tickers_on s then Some (Z.min (t_next (tk_flush s)) (Z.min (t_next (tk_cap s)) (t_next (tk_audit s)))) else None) t) in *.
+  assert (G : forall l acc, (forall d, acc = Some d -> d <= t) -> acc <> None ->
+              exists d, fold_left batch_deadlines l acc = Some d /\ d <= t).
+  { induction l as [|b l IH]; intros acc A N; simpl.
+    - destruct acc as [d|]; [|congruence]. exists d. split; [reflexivity|now apply A].
+    - apply IH.
+      + intros d. unfold batch_deadlines.
+        destruct acc as [a|]; [|congruence]. specialize (A a eq_refl).
+        destruct (b_entered b && negb (b_returned b)); destruct (b_started b && negb (b_done b)); simpl;
+          intro X; inv X; lia.
+      + unfold batch_deadlines. destruct acc; [|congruence].
+        destruct (b_entered b && negb (b_returned b)); destruct (b_started b && negb (b_done b)); simpl; discriminate. }
+  destruct (G (batches s) d1) as (d & E1 & E2).
+  - unfold d1. intros d. destruct (tickers_on s); simpl; intro X; inv X; lia.
+  - unfold d1. destruct (tickers_on s); simpl; discriminate.
+  - rewrite E1 in H0. apply Z.leb_le in H0. lia.
+Qed.
+
+Lemma unbusy_effect c s s' o :
+  step c s ILoopUnbusy = Some (s', o) ->
+  exists t, loop s = LBusy t /\ t = now s /\ loop s' = LIdle /\ o = []
+    /\ flush_tok s' = flush_tok s /\ pause_tok s' = pause_tok s /\ stop_req s' = stop_req s
+    /\ tk_flush s' = tk_flush s /\ tk_cap s' = tk_cap s /\ tk_audit s' = tk_audit s /\ buffer s' = buffer s.
+Proof.
+  simpl. unfold do_loop_unbusy. intro H. destruct (loop s) eqn:L; try discriminate.
+  destruct (until =? now s) eqn:E; [|discriminate]. apply Z.eqb_eq in E. some_inv H.
+  exists until. simpl. repeat split; try reflexivity; assumption.
+Qed.
+
+Lemma unbusy_enabled c s t : loop s = LBusy t -> t = now s -> exists s', step c s ILoopUnbusy = Some (s', []).
+Proof. intros L E. simpl. unfold do_loop_unbusy. rewrite L, E, Z.eqb_refl. eauto. Qed.
+
 
 (* ------------------------------------------------------------------ C11: completion *)
 
